@@ -36,6 +36,8 @@ def expr_to_z3(e, h):
     if isinstance(e, int):
         return e
     op = e[0]
+    if op == "py":          # a plain Python bool handed to the library as is
+        return bool(e[1])
     if op == "s":
         return h.tasks[e[1]]._start
     if op == "e":
